@@ -291,8 +291,9 @@ def normalize_url(
         query = fix_common_query_mistakes(query)
 
     # Handling punycode
+    # NOTE: only the hostname is case-insensitive, not the authentication
     if hostname:
-        hostname = decode_punycode_hostname(hostname)
+        hostname = decode_punycode_hostname(hostname).lower()
 
     # Dropping :80 & :443 when they are the default port of the scheme
     # NOTE: a url without scheme was given the http scheme above
@@ -424,7 +425,7 @@ def normalize_url(
 
     # Result
     netloc = unsplit_netloc(user, password, hostname, port)
-    result = SplitResult(scheme, netloc.lower(), path, query, fragment)
+    result = SplitResult(scheme, netloc, path, query, fragment)
 
     if not unsplit:
         return result
